@@ -85,13 +85,13 @@ REVIEWED = {
     "<grass_compiler::parse::sass::SassParser as grass_compiler::parse::stylesheet::StylesheetParser>::parse_statements|assert_eq!":
         "assert_eq!(indentation, 0): dart-sass has the same assertion; rests on the value invariant that every statement parser "
         "leaves the next indentation <= the current one (expect_statement_separator errors otherwise). No failing input found.",
-    "<grass_compiler::utils::map_view::UnprefixedMapView as grass_compiler::utils::map_view::MapView>::iter|unimplemented!":
+    "<grass_compiler::utils::map_view::UnprefixedMapView<V, T> as grass_compiler::utils::map_view::MapView>::iter|unimplemented!":
         "reachable only through `dyn MapView` dispatch (over-approximated); configuration views are never iterated. No failing input found.",
-    "<grass_compiler::utils::map_view::PrefixedMapView as grass_compiler::utils::map_view::MapView>::iter|unimplemented!":
+    "<grass_compiler::utils::map_view::PrefixedMapView<V, T> as grass_compiler::utils::map_view::MapView>::iter|unimplemented!":
         "reachable only through `dyn MapView` dispatch; module-variables over a prefixed forward yields () without iterating. No failing input found.",
-    "<grass_compiler::utils::map_view::LimitedMapView as grass_compiler::utils::map_view::MapView>::iter|unimplemented!":
+    "<grass_compiler::utils::map_view::LimitedMapView<V, T> as grass_compiler::utils::map_view::MapView>::iter|unimplemented!":
         "reachable only through `dyn MapView` dispatch; limited views are built for configuration and shadowing only. No failing input found.",
-    "<grass_compiler::utils::map_view::MergedMapView as grass_compiler::utils::map_view::MapView>::remove|unimplemented!":
+    "<grass_compiler::utils::map_view::MergedMapView<V> as grass_compiler::utils::map_view::MapView>::remove|unimplemented!":
         "reachable only through `dyn MapView` dispatch; remove is used for configuration maps, which are never merged views. No failing input found.",
 }
 
